@@ -208,6 +208,27 @@ pub fn build_tr(internal: u32, leaves: &[Node]) -> Option<Descriptor<PublicKey>>
     Descriptor::new_tr(ast::full_key(internal), tree).ok()
 }
 
+/// tr(internal, tree) with the leaves (left to right) arranged as a right-leaning comb
+/// (`shape` 1) or as a balanced tree (`shape` 2); `shape` 0 = `build_tr`'s left comb
+pub fn build_tr_shaped(internal: u32, leaves: &[Node], shape: u8) -> Option<Descriptor<PublicKey>> {
+    fn leaf(n: &Node) -> Option<TapTree<PublicKey>> {
+        let ms: Miniscript<PublicKey, Tap> = ast::to_ms(n).ok()?;
+        Some(TapTree::leaf(std::sync::Arc::new(ms)))
+    }
+    fn right(ls: &[Node]) -> Option<TapTree<PublicKey>> {
+        if ls.len() == 1 { return leaf(&ls[0]); }
+        TapTree::combine(leaf(&ls[0])?, right(&ls[1..])?).ok()
+    }
+    fn bal(ls: &[Node]) -> Option<TapTree<PublicKey>> {
+        if ls.len() == 1 { return leaf(&ls[0]); }
+        let m = ls.len() / 2;
+        TapTree::combine(bal(&ls[..m])?, bal(&ls[m..])?).ok()
+    }
+    if leaves.is_empty() || shape == 0 { return build_tr(internal, leaves); }
+    let tree = if shape == 1 { right(leaves)? } else { bal(leaves)? };
+    Descriptor::new_tr(ast::full_key(internal), Some(tree)).ok()
+}
+
 /// the script code ECDSA signatures must commit to BEFORE satisfaction (the harness re-derives
 /// it from the produced data afterwards, see `register_valid`)
 pub fn presign_code(desc: &Descriptor<PublicKey>) -> Option<(ScriptBuf, bool)> {
@@ -368,6 +389,31 @@ pub fn satisfy_and_judge(out: &mut Out, desc: &Descriptor<PublicKey>, assets: &D
                             let info2 = format!("{} via=Descriptor::satisfy", info);
                             judge_spend(out, &info2, &sat, &txin.script_sig, &w);
                         } else { out.count("Descriptor::satisfy wrote the get_satisfaction result"); }
+                    }
+                }
+            }
+            // the library's stock Satisfier impls: (key -> signature map, nSequence, nLockTime) tuple;
+            // whatever it produces must spend the output too
+            if !matches!(desc, Descriptor::Tr(_)) {
+                let mut m: std::collections::HashMap<PublicKey, ecdsa::Signature> = std::collections::HashMap::new();
+                for (id, sig) in &sat.ecdsa {
+                    for kid in [*id, *id + 100] {
+                        let pk = ast::full_key(kid);
+                        sat.issued.borrow_mut().push((pk.to_bytes(), sig.to_vec()));
+                        m.insert(pk, *sig);
+                    }
+                }
+                let stock = (&m, sat.tx.input[0].sequence, sat.tx.lock_time);
+                let r = std::panic::catch_unwind(std::panic::AssertUnwindSafe(|| {
+                    if mall { desc.get_satisfaction_mall(&stock) } else { desc.get_satisfaction(&stock) }
+                }));
+                match r {
+                    Err(_) => out.line(&format!("J nopanic get_satisfaction(stock satisfier) {} PANIC", info), "ok"),
+                    Ok(Err(_)) => out.count("stock satisfier: none"),
+                    Ok(Ok((w, ss))) => {
+                        if w != witness || ss != script_sig {
+                            judge_spend(out, &format!("{} via=stock-tuple-satisfier", info), &sat, &ss, &w);
+                        } else { out.count("stock satisfier: same as TxSat"); }
                     }
                 }
             }
